@@ -22,8 +22,8 @@ theorem replaceKids_append_of_nodup (c : Nat) (g : HTree → List HTree) (a b : 
     · rw [if_pos hk, if_pos hk]
       have hb : c ∉ handlesList b := by
         intro hc
-        simp only [List.cons_append, handlesList_cons, handlesList_append] at nd
-        have := (List.nodup_append.mp nd).2.2 c (hk ▸ handle_mem_handles k) c (by simp [hc])
+        simp only [List.cons_append, handlesList_cons, fi_handlesList_append] at nd
+        have := (List.nodup_append.mp nd).2.2 c (hk ▸ fi_handle_mem_handles k) c (by simp [hc])
         exact this rfl
       rw [replaceKids_of_not_mem c g b hb]
       simp
@@ -52,7 +52,7 @@ theorem replaceKids_plug_off (c : Nat) (g : HTree → List HTree) (path : List F
   | cons fr rest ih =>
     rw [plug_cons] at nd ⊢
     have nd1 := nd
-    rw [handlesList_append] at nd1
+    rw [fi_handlesList_append] at nd1
     have nd2 : (handlesList (HTree.node fr.h fr.v (plug rest ks) :: fr.r)).Nodup :=
       (List.nodup_append.mp nd1).2.1
     have nd3 : (handlesList (plug rest ks)).Nodup := by
@@ -106,7 +106,7 @@ theorem cut_of_loc_other {f : Forest} {p c : Nat} {path lp K rp} (lp' : Loc f.ro
 /-- A handle inside the subtree of `c` has `c` among its ancestors. -/
 theorem anc_of_mem_subtree {f : Forest} {c x : Nat} {path l C r} (lc : Loc f.roots c path l C r)
     (nd : f.allHandles.Nodup) (hx : x ∈ handles C) : (f.ancestors x).contains c = true := by
-  rw [handles_eq, lc.hk, List.mem_cons] at hx
+  rw [fi_handles_eq, lc.hk, List.mem_cons] at hx
   rcases hx with hx | hx
   · subst hx
     rw [ancestors_of_loc lc nd]; simp
@@ -132,7 +132,7 @@ theorem mem_subtree_of_anc {f : Forest} {c x : Nat} {path l C r} (lc : Loc f.roo
     have e1 := get?_of_loc lc nd
     have e2 := get?_of_loc locx nd
     rw [e1] at e2; cases e2
-    rw [handles_eq, lc.hk]; simp
+    rw [fi_handles_eq, lc.hk]; simp
   · obtain ⟨p1, p2, hp⟩ := List.append_of_mem hfr
     have lc2 : Loc f.roots c p1 fr.l (.node fr.h fr.v (plug p2 (lx ++ X :: rx))) fr.r := by
       refine ⟨?_, ha⟩
@@ -142,8 +142,8 @@ theorem mem_subtree_of_anc {f : Forest} {c x : Nat} {path l C r} (lc : Loc f.roo
     rw [e1] at e2; cases e2
     rw [handles_node]
     refine List.mem_cons_of_mem _ (mem_handlesList_plug.mpr (Or.inr ?_))
-    simp only [handlesList_append, handlesList_cons, List.mem_append]
-    exact Or.inr (Or.inl (locx.hk ▸ handle_mem_handles X))
+    simp only [fi_handlesList_append, handlesList_cons, List.mem_append]
+    exact Or.inr (Or.inl (locx.hk ▸ fi_handle_mem_handles X))
 
 end Forest
 end XotModel
